@@ -547,7 +547,10 @@ def filterTagArgs (cfg : SetCfg) : Nat â†’ List (Bytes Ã— Option Expr) â†’ PS â†
     if args.remaining = 0 then pure (acc, args)
     else match args.matchType .ident with
     | none => .error (args.err "Expected a filter name (identifier).")
-    | some (n, args) => do
+    | some (n, args) =>
+      if cfg.bannedFilters.elem n.val then
+        .error (args.err "Usage of filter is not allowed (sandbox restriction active)." (some n))
+      else do
       let (param, args) â† (match args.matchSym b!":" with
         | some a => do
           let (e, a) â† parseVarOrLit cfg fuel a
